@@ -38,3 +38,10 @@ pub use generators::pedersen_gens::PedersenGens;
 pub use merlin::Transcript;
 
 pub mod ristretto;
+
+/// Verification hooks: re-exports of private helpers so that external verification harnesses can call them.
+/// Compiled only with the `verif` feature; never part of a normal build.
+#[cfg(feature = "verif")]
+pub mod verif_hooks {
+    pub use crate::utils::generic::{compute_generator_padding, nonce};
+}
